@@ -4,6 +4,7 @@ import (
 	"strings"
 
 	"github.com/xjslang/xjs/ast"
+	"github.com/xjslang/xjs/simhook"
 	"github.com/xjslang/xjs/sourcemap"
 )
 
@@ -86,6 +87,7 @@ func (c *Compiler) WithSourceMap() *Compiler {
 }
 
 func (c *Compiler) Compile(program *ast.Program) CompileResult {
+	simhook.Point(simhook.CompileBegin)
 	w := ast.CodeWriter{
 		Builder:         strings.Builder{},
 		PrettyPrint:     c.prettyPrint,
@@ -97,6 +99,7 @@ func (c *Compiler) Compile(program *ast.Program) CompileResult {
 	}
 	program.WriteTo(&w)
 
+	simhook.Point(simhook.CompileEnd)
 	// TODO: maybe it won't necessary to "clean" the result
 	code := w.String()
 	if c.prettyPrint {
